@@ -561,6 +561,11 @@ class Executor:
                       if n.endswith("::%s::promoted[%s]" % (meth, m.group(2))) and (strip_ref(ty) in b.nret)]
                 if cs:
                     return self.eval_const(st, cs[-1])
+                # promoted constant of a trait's default method (body shared by all implementors)
+                tl = mm.group(2).split("<")[0].rsplit("::", 1)[-1].strip()
+                cs = self.P.consts.get("%s::%s::promoted[%s]" % (tl, meth, m.group(2)))
+                if cs:
+                    return self.eval_const(st, cs[-1])
             cs = self.P.consts.get(c) or [b for n, bs in self.P.consts.items() for b in bs if norm_ty(n) == norm_ty(c)]
             if cs:
                 return self.eval_const(st, cs[-1])
@@ -874,6 +879,16 @@ class Executor:
                     return self.exec_body(st, ov, args, {})
                 return self.exec_body(st, d[-1], args, {"Self": ty})
             return self.summary(st, ty, trait_last, meth, args, subst, callee)
+        # crate-local free function (no impl, no trait): `module::name` or `name`
+        plain = re.sub(r"::<.*>$", "", callee)
+        if re.match(r"^[\w:]+$", plain):
+            last = plain.rsplit("::", 1)[-1]
+            cands = [b for b in self.P.by_method.get(last, []) if "<impl at" not in b.name and "{closure" not in b.name
+                     and re.match(r"^(?:\w+::)*%s$" % re.escape(last), b.name) and not b.name.split("::")[0][:1].isupper()
+                     and len(b.params) == len(args)]
+            cands = [b for b in cands if b.name == plain or b.name.endswith("::" + plain) or plain.endswith("::" + b.name) or b.name.rsplit("::", 1)[-1] == plain]
+            if len({b.name for b in cands}) == 1:
+                return self.exec_body(st, cands[-1], args, {})
         # inherent / free function:  path::<G>::name::<G>
         path = re.sub(r"::<[^<>]*(?:<[^<>]*>[^<>]*)*>$", "", callee)     # drop trailing method generics
         m = re.match(r"^(.*?)(?:::<(.*)>)?::(\w+)$", path)
